@@ -23,6 +23,7 @@ Words == {"/REJT/", "/RETN/", "/RJT/", "/RET/", "REJTBARE", "/rejt/", "/REJTX/",
 Murs  == {"none", "REJT", "RETN", "MUR12345", "XREJTY"}
 Flags == {"none", "REJT", "RETN", "COV", "STP"}
 
+CovSeqs == {"none", "50+59", "50", "59"}
 VARIABLES mt, words, mur, flag, covseq
 
 vars == <<mt, words, mur, flag, covseq>>
@@ -31,8 +32,10 @@ Init ==
   /\ mt \in Types72 \cup {OtherType, Type79}
   /\ words \in {w \in SUBSET Words : Cardinality(w) <= MaxWords}
   /\ mur \in Murs /\ flag \in Flags
-  /\ covseq \in BOOLEAN
-  /\ covseq => mt = "202"
+  \* the cover sequence (MT202 sequence B): absent, ordering and beneficiary customer, or either one alone --
+  \* any field of it makes the sequence present
+  /\ covseq \in CovSeqs
+  /\ covseq # "none" => mt = "202"
   /\ (flag \in {"REJT", "RETN", "COV"}) => mt \in {"202", "205"}
   /\ (flag = "STP") => mt = "103"
   /\ (mt = Type79) => (Cardinality(words) <= 1 /\ mur = "none" /\ flag = "none")   \* the word stands at the start of line 1
@@ -44,7 +47,7 @@ MurHas(w) == (w = "REJT" /\ mur \in {"REJT", "XREJTY"}) \/ (w = "RETN" /\ mur = 
 Supports == mt \in Types72
 RefReject == MurHas("REJT") \/ (Supports /\ "/REJT/" \in words) \/ (mt = Type79 /\ words = {"/REJT/"})
 RefReturn == MurHas("RETN") \/ (Supports /\ "/RETN/" \in words) \/ (mt = Type79 /\ words = {"/RETN/"})
-RefCover  == (mt = "202" /\ covseq) \/ (mt = "205" /\ (words \cap {"/COV/", "/COVER/"}) # {})
+RefCover  == (mt = "202" /\ covseq # "none") \/ (mt = "205" /\ (words \cap {"/COV/", "/COVER/"}) # {})
 
 (* method implied by the classifications (lib* = the predicates as the library evaluates
    them; the harness substitutes the library's own answers, which isolates the dispatch) *)
